@@ -337,6 +337,9 @@ pub struct OracleCfg {
     /// than 128 inputs are unacknowledged, and the host must keep running
     #[serde(default)]
     pub silent_spectators_cut: bool,
+    /// C15: node 0 runs `lead` frames ahead of node 1 over a symmetric link
+    #[serde(default)]
+    pub timesync: Option<TimeSyncCheck>,
     /// two healthy sessions that merely poll must never see NetworkInterrupted
     #[serde(default)]
     pub no_interrupted_events: bool,
@@ -363,11 +366,23 @@ impl Default for OracleCfg {
             spectator_stream: true,
             lifecycle: true,
             survivor_agreement: false,
+            timesync: None,
             silent_spectators_cut: false,
             no_interrupted_events: false,
             lifecycle_timing: false,
         }
     }
+}
+
+#[derive(Serialize, Deserialize, Clone, Debug, PartialEq)]
+pub struct TimeSyncCheck {
+    /// nominal lead of node 0 over node 1 in frames
+    pub lead: i32,
+    /// exact lead in 1/1000 frames (the tick phases of the two nodes differ by a fraction of a frame)
+    #[serde(default)]
+    pub lead_milli: i64,
+    pub latency_us: u64,
+    pub measure_from_us: u64,
 }
 
 #[derive(Serialize, Deserialize, Clone, Debug, PartialEq)]
